@@ -78,6 +78,18 @@ STATEFUL = [
      "main", "state:filter-argument-sticks:misc"),
 ]
 
+STATEFUL += [
+    # a namespace built from render data / without arguments is a private object of that render
+    ({"main": "{% set ns = namespace(d) %}{% set ns.x = ns.x|default(0) + 1 %}{% set ns.extra = 1 %}{{ ns.x }}{{ d|length }}"},
+     "main", "state:namespace-from-data-dict", {"d": {"x": 5, "y": 6}}),
+    ({"main": "{% set ns = namespace() %}{% set ns.x = ns.x|default(0) + 1 %}{{ ns.x }}"
+              "{% set other = namespace() %}{{ other.x|default('none') }}"}, "main", "state:namespace-no-arguments"),
+    ({"main": "{% set ns = namespace(rows[0]) %}{% set ns.total = ns.total + 1 %}{{ ns.total }}{{ rows[0].total }}"},
+     "main", "state:namespace-from-data-row", {"rows": [{"total": 1}, {"total": 2}]}),
+    ({"main": "{% set ns = namespace(a=1) %}{% for i in range(2) %}{% set ns.a = ns.a + i %}{% endfor %}{{ ns.a }}"
+              "{% set l = xs|list %}{% set m = xs|sort %}{{ l|length }}{{ xs|length }}"}, "main", "state:copies", {"xs": [3, 1, 2]}),
+]
+
 WORDS = "alpha beta gamma delta epsilon zeta eta theta iota kappa lambda mu nu xi omicron pi rho sigma tau"
 
 
@@ -98,8 +110,43 @@ def filter_stress_cases():
 
 
 def stateful_case(i):
-    tpls, main, key = STATEFUL[i % len(STATEFUL)]
-    return {"kind": "stateful", "raw": dict(tpls), "main": main, "data": {}, "globals": {}, "key": key}
+    ent = STATEFUL[i % len(STATEFUL)]
+    tpls, main, key = ent[:3]
+    c = {"kind": "stateful", "raw": dict(tpls), "main": main, "data": {}, "globals": {}, "key": key}
+    if len(ent) > 3:
+        c["rawdata"] = ent[3]
+    return c
+
+
+def importer_globals_check(ctx):
+    """One library imported (without context) by two importers that were loaded with
+    template-level globals of the SAME names but DIFFERENT values: each importer's macros
+    see that importer's globals, in any order and repeatedly."""
+    import jinja2
+
+    lib = "{% macro show() %}[{{ k }}|{{ j|default('-') }}]{% endmacro %}{% set v = k %}"
+    for variant, imp in (("import", "{% import 'lib' as m %}{{ m.show() }}{{ m.v }}"),
+                         ("from", "{% from 'lib' import show, v %}{{ show() }}{{ v }}"),
+                         ("include", "{% include 'lib2' without context %}")):
+        srcs = {"lib": lib, "imp": imp, "lib2": "{{ k }}{{ j|default('-') }}"}
+        want = {}
+        for val in ("one", "two", "three"):
+            e = jinja2.Environment(loader=jinja2.DictLoader(srcs))
+            want[val] = util.capture(lambda: e.get_template("imp", globals={"k": val, "j": val.upper()}).render())
+        for val in ("one", "two", "three"):
+            srcs["imp_" + val] = imp   # one importer per set of globals (globals stick to a cached template)
+        for order, cs in ((("one", "two", "one", "three", "two"), 400), (("two", "one", "two"), 400),
+                          (("one", "two", "one"), 0)):
+            e = jinja2.Environment(loader=jinja2.DictLoader(srcs), cache_size=cs)
+            for val in order:
+                o = util.capture(lambda: e.get_template("imp_" + val, globals={"k": val, "j": val.upper()}).render())
+                ctx.ev()
+                ctx.count("importer_globals_steps")
+                if not same(want[val], o):
+                    ctx.violation("state:importer-globals:" + variant,
+                                  f"importer loaded with globals k={val!r} rendered {o!r}, alone {want[val]!r} (order {order}) | {srcs}",
+                                  {"kind": "importer-globals"})
+                    break
 
 
 def env_for(case):
@@ -254,6 +301,7 @@ def run(ctx):
     n = 500 if quick else 12000
     i = 0
     pool = []
+    importer_globals_check(ctx)
     while ctx.more(i, n, floor=60):
         if i % 6 == 5:
             case = stateful_case(rng.randrange(100))
@@ -279,7 +327,9 @@ def run(ctx):
 
 def replay(ctx, case):
     rng = random.Random(0)
-    if "cases" in case:
+    if case.get("kind") == "importer-globals":
+        importer_globals_check(ctx)
+    elif "cases" in case:
         for _ in range(20):
             check_threads(ctx, case["cases"], rng, case["nthreads"], 8, True)
     else:
